@@ -49,7 +49,7 @@ def gen_box(rng, serial):
         return [rng.randrange(limit) for _ in range(rng.choice([1, n, n, n, max(1, n - 1), n + 1]))]
     style = {'sizes': ids(8), 'clips': ids(3), 'repeats': ids(4), 'origins': ids(3), 'positions': ids(8),
              'attachments': [rng.choice([0, 0, 0, 1]) for _ in range(rng.choice([1, n]))]}
-    return {'images': images, 'style': style, 'table': table, 'hidden': rng.random() < 0.06,
+    return {'images': images, 'style': style, 'table': table, 'hidden': rng.choice([False] * 15 + ['hidden', 'collapse']),     # visibility other than visible (af29a5d)
             'transparent': rng.random() < 0.6, 'orient': rng.choice(['from-image', 'from-image', 'none', (90, False)])}
 
 
@@ -69,7 +69,7 @@ def box_html(box, drop_failed=False):
         'background-origin:' + ','.join(BOXES[i] for i in style['origins']) + ';'
         'background-position:' + ','.join(f'{i}px {2 * i}px' for i in style['positions']) + ';'
         'background-attachment:' + ','.join(ATTACHMENTS[i] for i in style['attachments']) + ';'
-        + ('' if box['transparent'] else 'background-color:red;') + ('visibility:hidden;' if box['hidden'] else '') + orient)
+        + ('' if box['transparent'] else 'background-color:red;') + (f'visibility:{box["hidden"]};' if box['hidden'] else '') + orient)
     return ('<html><head><style>@page{size:300px 200px;margin:7px}body{margin:0}</style></head><body>'
             f'<div id=b style="{decls}width:60px;height:40px;padding:3px;border:2px solid"></div></body></html>')
 
@@ -126,7 +126,7 @@ def box_wire(box):
     images = [['url', enc(v)] if k == 'url' else ('none' if k == 'none' else ['grad', v]) for k, v in box['images']]
     style = box['style']
     orient = box['orient'] if isinstance(box['orient'], str) else list(box['orient'])
-    return [box['hidden'], box['transparent'], False, orient, images, style['sizes'], style['clips'], style['repeats'],
+    return [bool(box['hidden']), box['transparent'], False, orient, images, style['sizes'], style['clips'], style['repeats'],
             style['origins'], style['positions'], style['attachments']]
 
 
@@ -159,13 +159,16 @@ def section(run):
          'hidden': False, 'transparent': True, 'orient': 'from-image'}]
     fixed.append({**fixed[0], 'table': {BASE + 'bad.png': Spec('resp', content=R.bank()['html'], string=True, mime='text/html'),
                                        BASE + 'ok.png': fixed[0]['table'][BASE + 'ok.png']}})
+    # regression of af29a5d (found by C17): a box with visibility: collapse paints no background, fetches nothing
+    fixed.append({**fixed[0], 'hidden': 'collapse', 'transparent': False})
+    fixed.append({**fixed[0], 'hidden': 'hidden', 'transparent': False})
     boxes = fixed + [gen_box(run.rng, i) for i in range(run.n(160, 2500))]
     for box in boxes:
         failing = any(k == 'url' and not loads(box['table'][v]) for k, v in box['images'])
         sec.add(sx.line('bg', R.Recorder(box['table']).sx(), [False, None, None], box_wire(box)), run_box(box),
                 meta={'box': box_json(box)}, nontrivial=failing,
                 tags=[f'layers{len(box["images"])}', 'failing-layer' if failing else 'all-load'] +
-                     (['hidden'] if box['hidden'] else []))
+                     ([f'visibility-{box["hidden"]}'] if box['hidden'] else []))
 
 
 def judge(meta):
